@@ -74,6 +74,46 @@ def _rewrite_job(job):
     return cnt, out
 
 
+def symlink_out_case():
+    """The designated output spelled through a symbolic link and `..` (latest/../merged.ipynb with latest -> another directory): the
+    merged notebook must be where the operating system resolves that path, and nowhere else."""
+    import io, logging, os, shutil, tempfile
+    logging.disable(logging.CRITICAL)
+    import nbformat
+    from bounded import nbspace
+    from nbdime import nbmergeapp
+    out = []
+    d = os.path.realpath(tempfile.mkdtemp(prefix='nbdime-verif-c08-'))
+    cwd = os.getcwd()
+    try:
+        work, run = os.path.join(d, 'work'), os.path.join(d, 'archive', 'run-0001')
+        os.makedirs(work)
+        os.makedirs(run)
+        os.symlink(run, os.path.join(work, 'latest'))
+        for x, src in (('base', 'a = 1\nb = 1\nc = 1\nd = 1\n'), ('local', 'a = 2\nb = 1\nc = 1\nd = 1\n'), ('remote', 'a = 1\nb = 1\nc = 1\nd = 3\n')):
+            with io.open(os.path.join(work, x + '.ipynb'), 'w', encoding='utf8') as fh:
+                nbformat.write(nbspace.notebook([nbspace.code_cell(src)], minor=5), fh)
+        os.chdir(work)
+        spelled = os.path.join('latest', os.pardir, 'merged.ipynb')
+        try:
+            status = nbmergeapp.main(['base.ipynb', 'local.ipynb', 'remote.ipynb', '--out', spelled])
+        except SystemExit as exc:
+            status = exc.code
+        designated = os.path.join(d, 'archive', 'merged.ipynb')       # what open(spelled) in `work` refers to
+        stray = os.path.join(work, 'merged.ipynb')
+        if status in (0, 1) and not os.path.exists(designated):
+            out.append(('output-elsewhere', 'nbmerge --out %s (latest is a symbolic link to another directory) finishes with status %r but there is no merged '
+                        'notebook at the designated output%s' % (spelled, status, '; a file appeared at work/merged.ipynb instead' if os.path.exists(stray) else '')))
+    finally:
+        os.chdir(cwd)
+        shutil.rmtree(d, ignore_errors=True)
+    return out
+
+
+def replay_symlink():
+    return symlink_out_case()
+
+
 def replay_rewrite(where):
     cnt, out = _rewrite_job((where['seed'], where['n']))
     return [o for o in out if o[2]['index'] == where['index']]
@@ -92,6 +132,9 @@ def run(res):
                'merge_notebooks gets the three notebooks read from args.base/local/remote; no output effect before merge_notebooks returned; exactly one complete '
                'nbformat.write of the returned notebook to --out/stdout; no handler swallows an exception; the driver sets out=local, decisions=False and returns '
                'main_merge\'s status unchanged.')
+    res.evaluations += 1
+    for kind, detail in symlink_out_case():
+        res.violation('%s [%s]' % (detail, kind), {'replay_kind': 'call', 'module': 'checks.c08', 'function': 'replay_symlink', 'args': []})
     seen = set()
     for cnt, fails in common.pmap(_rewrite_job, [(res.seed * 4099 + k, 3 if res.tier == 'quick' else 10) for k in range(8 if res.tier == 'quick' else 32)]):
         res.evaluations += cnt
